@@ -4,9 +4,13 @@
 //! A crash point freezes the seam after a given step and unwinds the caller (process-kill
 //! model: completed calls persist, user-space buffers are lost — a `BufWriter` flushing in
 //! its destructor during the unwind writes into a frozen, discarding file).
-//! `rename` is NOT intercepted: the tracker calls the real `std::fs::rename` on the real
-//! scratch files (so no hook is needed for it and its atomicity is the kernel's); a crash
-//! "before the rename" is the crash point after the close step.
+//! `rename` and `unlink` need no hook in the repository either: the tracker calls the real
+//! `std::fs::rename` on the real scratch files, and this crate *interposes* the C symbols
+//! `rename` / `unlink` that std calls (a definition in the executable wins over libc's). While
+//! `track_path_ops(true)` is in force, such a call on a path inside the scratch directory is a
+//! numbered step like the others - observer after it, error injection, crash point (a crash
+//! point after a path step freezes the seam instead of unwinding: the caller is C ABI) - and is
+//! then performed by the kernel (its atomicity is the kernel's).
 use std::collections::BTreeMap;
 use std::io;
 use std::path::{Path, PathBuf};
@@ -23,6 +27,8 @@ pub enum FsOp {
     Flush,
     Close,
     Read,
+    Rename,
+    Unlink,
 }
 
 #[derive(Clone, Debug, Default)]
@@ -358,5 +364,84 @@ impl Drop for File {
             }
             Outcome::Fail(_) => drop(inner),
         }
+    }
+}
+
+
+// ------------------------------------------------------------------ rename / unlink interposition
+
+static TRACK_PATH_OPS: std::sync::atomic::AtomicBool = std::sync::atomic::AtomicBool::new(false);
+
+/// Treat `rename` / `unlink` calls on scratch-directory paths as file steps (only while tracker code runs).
+pub fn track_path_ops(on: bool) {
+    TRACK_PATH_OPS.store(on, std::sync::atomic::Ordering::SeqCst);
+}
+
+fn tracked(p: *const libc::c_char) -> Option<PathBuf> {
+    if !TRACK_PATH_OPS.load(std::sync::atomic::Ordering::Relaxed) || p.is_null() {
+        return None;
+    }
+    let path = {
+        use std::os::unix::ffi::OsStrExt;
+        let c = unsafe { std::ffi::CStr::from_ptr(p) };
+        PathBuf::from(std::ffi::OsStr::from_bytes(c.to_bytes()))
+    };
+    let dir = SCRATCH.try_lock().ok()?.clone()?;
+    if path.starts_with(&dir) {
+        Some(path)
+    } else {
+        None
+    }
+}
+
+/// End of a path step. No unwinding here (C ABI caller): a crash point freezes the seam, so that
+/// whatever the tracker does to its files afterwards fails as it would for a dead process.
+fn end_path_step(step: u64, op: FsOp, path: &Path) {
+    if let Ok(mut o) = OBSERVER.try_lock() {
+        if let Some(o) = o.as_mut() {
+            o(step, &op, path);
+        }
+    }
+    with(|s| {
+        if s.faults.crash_after_step == Some(step) && !s.frozen {
+            s.frozen = true;
+            *s.fired.entry("crash").or_insert(0) += 1;
+        }
+    });
+}
+
+fn path_step(op: FsOp, path: &Path, real: impl FnOnce() -> libc::c_int) -> libc::c_int {
+    match begin(op.clone(), path) {
+        Outcome::Fail(_) => {
+            unsafe { *libc::__errno_location() = libc::EIO };
+            -1
+        }
+        Outcome::Proceed(step) => {
+            let r = real();
+            let e = unsafe { *libc::__errno_location() };
+            end_path_step(step, op, path);
+            unsafe { *libc::__errno_location() = e };
+            r
+        }
+    }
+}
+
+/// Interposed `rename(2)` (what `std::fs::rename` calls).
+#[no_mangle]
+pub unsafe extern "C" fn rename(old: *const libc::c_char, new: *const libc::c_char) -> libc::c_int {
+    let real = || libc::syscall(libc::SYS_rename, old, new) as libc::c_int;
+    match tracked(new) {
+        Some(path) => path_step(FsOp::Rename, &path, real),
+        None => real(),
+    }
+}
+
+/// Interposed `unlink(2)` (what `std::fs::remove_file` calls).
+#[no_mangle]
+pub unsafe extern "C" fn unlink(p: *const libc::c_char) -> libc::c_int {
+    let real = || libc::syscall(libc::SYS_unlink, p) as libc::c_int;
+    match tracked(p) {
+        Some(path) => path_step(FsOp::Unlink, &path, real),
+        None => real(),
     }
 }
